@@ -29,6 +29,7 @@ type twinCaseWitness struct {
 	Family    string     `json:"family"`
 	Commands  [][]string `json:"commands"` // encoded argv, in order, as sent to A ("bad" is the one before last unless probe-less)
 	Human     []string   `json:"commands_human"`
+	Focus     []string   `json:"commands_on_the_same_keys_human"` // readable subset: commands addressing the key of the erroring command or of the probe
 	BadIndex  int        `json:"bad_index"`
 	BadReply  string     `json:"bad_reply"`
 	Diff      []string   `json:"diff"`
@@ -263,9 +264,18 @@ func (s *childState) twinRound(hosts []*Host, w, r int, fam string, byFamily map
 			cmds := append(append([]GenCmd(nil), history...), extra...)
 			wit := twinCaseWitness{Engine: conf.Engine, Namespace: ns, Family: fam, BadIndex: badIdx, BadReply: cut(badReply, 300), Diff: diff, Oracle: oracle}
 			// keep the witness readable: commands touching other keys than the diff are still needed for replay, so keep all
+			keys := map[string]bool{}
+			for _, c := range cmds[badIdx:] {
+				if len(c.Args) > 1 {
+					keys[string(c.Args[1])] = true
+				}
+			}
 			for _, c := range cmds {
 				wit.Commands = append(wit.Commands, EncodeArgv(c.Args))
 				wit.Human = append(wit.Human, HumanArgv(c.Args))
+				if len(c.Args) > 1 && keys[string(c.Args[1])] {
+					wit.Focus = append(wit.Focus, HumanArgv(c.Args))
+				}
 			}
 			return wit
 		}
